@@ -34,7 +34,7 @@ L = core.lift
 
 
 def bounds(tier):
-    return {"n_epochs": 3, "poly_trend": [1, 2], "n_offsets": [0, 1], "jitter": ["constant", "sampled"], "prior_units": ["default", "P in years / K in m/s"]}
+    return {"n_epochs": 3, "poly_trend": [1, 3], "n_offsets": [0, 1], "jitter": ["constant", "sampled"], "prior_units": ["default", "P in years / K in m/s"]}
 
 
 def shapes(tier):
@@ -43,6 +43,7 @@ def shapes(tier):
         for noff in (0, 1):
             for units_ in ("default", "other"):
                 out.append({"poly": npoly, "noff": noff, "jitter": "sampled" if (npoly + noff) % 2 else "constant", "units": units_})
+    out.append({"poly": 3, "noff": 1, "jitter": "sampled", "units": "other"})
     return out
 
 
@@ -71,7 +72,7 @@ def _build(shape):
         kw = {}
         if shape["jitter"] == "sampled":
             kw["s"] = xu.with_unit(pm.Lognormal("s", 0.0, 0.5), vun)
-        sv = [(30 * u.km / u.s).to(vun), (0.5 * u.km / u.s / u.day).to(vun / u.day)][:npoly]
+        sv = [(30 * u.km / u.s).to(vun), (0.5 * u.km / u.s / u.day).to(vun / u.day), (0.01 * u.km / u.s / u.day ** 2).to(vun / u.day ** 2)][:npoly]
         prior = tj.JokerPrior.default(P_min=(3 * u.day).to(Pun), P_max=(200 * u.day).to(Pun), sigma_K0=(25 * u.km / u.s).to(vun), sigma_v=sv if npoly > 1 else sv[0],
                                       poly_trend=npoly, v0_offsets=offs, **kw)
         samples = prior.sample(size=5, generate_linear=True, rng=np.random.default_rng(4))
